@@ -1,14 +1,1729 @@
-//! C12 — not built yet.
-use crate::engine::{Ctx, Property};
+//! C12 — instancing a variable font evaluates the OpenType variation model.
+//!
+//! Forward construction: a *variation model* (axes, glyph outlines, per-glyph tuple variations
+//! with regions / point sets / deltas, hmtx, optional HVAR / MVAR / avar) is serialised by my own
+//! encoders (`fontgen::gvar`, `fontgen::var`, `fontgen::basic`) into a complete TrueType variable
+//! font; `allsorts::variations::instance` is called at several user coordinates; the output font
+//! is read by my own glyf/hmtx/OS2/hhea/post readers (`refmodel::varmodel`) and compared with an
+//! f64 evaluation of the model at the normalised location that `instance` returned.
+//! A second section evaluates the repository's fixture variable fonts, decoded by my own
+//! gvar/HVAR/MVAR decoders, with the same reference.
+
+use crate::engine::util::{mix64, pick};
+use crate::engine::{fixtures, CaseResult, Ctx, Fail, Property, Rec};
+use crate::fontgen::basic::{glyf_simple, BasicFont, SimpleGlyph};
+use crate::fontgen::gvar::{
+    delta_set_index_map, glyf_composite, gvar_table, hvar_table, item_variation_store, min_map_format, mvar_table,
+    cvar_table, region_is_implied, Choices, CompArgs, ComponentEnc, EncStats, GlyphVarEnc, IvdEnc, TupleEnc,
+};
+use crate::fontgen::sfnt::find_table;
+use crate::fontgen::var::{avar_table, fvar_table, AxisModel};
+use crate::refmodel::varmodel::{
+    bbox_of, composed_points, composed_points_model, decode_cvar, decode_gvar, eval_cvt, decode_hvar, decode_mvar, eval_glyph, implied_axis_region, metric_fields,
+    axis_region_invalid, read_font, AxisRegion, HvarModel, IvsModel, OutShape, ParsedFont, Region, TupleVar,
+};
+use allsorts::binary::read::ReadScope;
+use allsorts::font::Font;
+use allsorts::font_data::FontData;
+use allsorts::tables::Fixed;
+use proptest::prelude::*;
+use std::collections::BTreeMap;
 
 pub struct C12;
+
+/// One font unit of rounding plus the slack of arithmetic that keeps "at least 16 fractional
+/// bits" (what the specification asks for): scalars accurate to 2⁻¹⁶ times deltas below 2¹⁰,
+/// a handful of tuples.
+const TOL: f64 = 1.0 + 1.0 / 16.0;
+
+// ------------------------------------------------------------------ case model (generated)
+
+type Pt = (i16, i16, bool);
+
+#[derive(Clone, Debug)]
+pub enum AxisRegSpec {
+    /// peak 0: the axis does not take part (with explicit start/end tuples: 0,0 or -1,+1)
+    Zero(bool),
+    /// region implied by the peak
+    Peak(i16),
+    /// explicit start ≤ peak ≤ end on one side of zero
+    Inter(i16, i16, i16),
+    /// a (start, peak, end) triple the specification calls invalid and for which it prescribes
+    /// an axis scalar of 1: start > peak, peak > end, or start < 0 < end with peak ≠ 0.
+    /// Only used when the case allows invalid regions.
+    Invalid(i16, i16, i16),
+}
+
+#[derive(Clone, Debug, PartialEq)]
+pub enum PointMode {
+    All,
+    Private,
+    Shared,
+}
+
+#[derive(Clone, Debug)]
+pub struct TupleSpec {
+    pub axes: Vec<AxisRegSpec>,
+    pub mode: PointMode,
+    pub mask: Vec<bool>,
+    pub phantom_mask: Vec<bool>,
+    pub deltas: Vec<(i16, i16)>,
+    pub phantom_deltas: Vec<(i16, i16)>,
+    pub share_peak: bool,
+    pub explicit_inter: bool,
+    pub seed: u32,
+}
+
+#[derive(Clone, Debug)]
+pub struct CompSpec {
+    pub target: u32,
+    pub dx: i16,
+    pub dy: i16,
+    pub anchor: Option<(u32, u32)>,
+    pub force_words: bool,
+    pub round: bool,
+}
+
+#[derive(Clone, Debug)]
+pub enum ShapeSpec {
+    Empty,
+    Simple(Vec<Vec<Pt>>),
+    Big { n: u16, contours: u8, seed: u32 },
+    Composite(Vec<CompSpec>),
+}
+
+#[derive(Clone, Debug)]
+pub struct SharedSpec {
+    pub all: bool,
+    pub mask: Vec<bool>,
+    pub phantom_mask: Vec<bool>,
+}
+
+#[derive(Clone, Debug)]
+pub struct GlyphSpec {
+    pub shape: ShapeSpec,
+    pub advance: u16,
+    /// x of phantom point 1 in the default master (0 = lsb equals xMin, as the spec requires
+    /// of variable TrueType fonts)
+    pub pp1: i16,
+    pub tuples: Vec<TupleSpec>,
+    pub shared: Option<SharedSpec>,
+    pub data_gap: u8,
+}
+
+#[derive(Clone, Debug)]
+pub struct AxisSpec {
+    pub default_units: i16,
+    pub below: u16,
+    pub above: u16,
+    /// interior avar knots as (from, to) magnitudes per side, if the font has an avar table
+    pub avar: Vec<(i16, i16)>,
+    pub wght: bool,
+}
+
+#[derive(Clone, Debug)]
+pub struct HvarSpec {
+    pub mapped: bool,
+    pub lsb_map: bool,
+    pub entry_size: u8,
+    pub extra_inner_bits: u8,
+    pub format1: bool,
+    pub subtables: u8,
+    pub truncate: bool,
+    pub long_words: bool,
+    pub extra_words: u8,
+    pub seed: u32,
+}
+
+#[derive(Clone, Debug)]
+pub struct MvarSpec {
+    pub tags: Vec<u8>,
+    pub regions: Vec<Vec<AxisRegSpec>>,
+    pub deltas: Vec<Vec<i16>>,
+    pub record_extra: u8,
+    pub subtables: u8,
+    pub long_words: bool,
+}
+
+#[derive(Clone, Debug)]
+pub struct CvarSpec {
+    pub n_cvts: u8,
+    pub seed: u32,
+    pub tuples: Vec<TupleSpec>,
+    pub shared: Option<SharedSpec>,
+}
+
+#[derive(Clone, Debug)]
+pub struct CoordSpec {
+    pub kind: u8,
+    pub r: u32,
+    pub off: i8,
+}
+
+#[derive(Clone, Debug)]
+pub struct Case {
+    pub axes: Vec<AxisSpec>,
+    pub with_avar: bool,
+    pub glyphs: Vec<GlyphSpec>,
+    pub hvar: Option<HvarSpec>,
+    pub mvar: Option<MvarSpec>,
+    pub cvar: Option<CvarSpec>,
+    pub coords: Vec<Vec<CoordSpec>>,
+    pub long_gvar: bool,
+    pub long_loca: bool,
+    pub short_hmtx: bool,
+    pub extra_shared_tuples: u8,
+    pub enc_seed: u64,
+    /// keep `AxisRegSpec::Invalid` axes (otherwise they are replaced by valid ones)
+    pub invalid_regions: bool,
+}
+
+// ------------------------------------------------------------------ strategies
+
+fn coord_val() -> impl Strategy<Value = i16> {
+    prop_oneof![
+        6 => (0i16..=10).prop_map(|k| k * 50),
+        2 => -100i16..700,
+        1 => -1000i16..1500,
+    ]
+}
+
+fn pt() -> impl Strategy<Value = Pt> {
+    (coord_val(), coord_val(), proptest::bool::weighted(0.7))
+}
+
+fn contour() -> impl Strategy<Value = Vec<Pt>> {
+    prop_oneof![
+        1 => proptest::collection::vec(pt(), 1..=2),
+        6 => proptest::collection::vec(pt(), 3..=6),
+    ]
+}
+
+fn delta() -> impl Strategy<Value = i16> {
+    prop_oneof![
+        3 => Just(0i16),
+        3 => proptest::sample::select(vec![10i16, -10, 50, -50, 100]),
+        3 => -128i16..=127,
+        2 => -600i16..=600,
+        1 => proptest::sample::select(vec![127i16, 128, -128, -129, 255, 256, -300]),
+    ]
+}
+
+fn mag() -> impl Strategy<Value = i16> {
+    prop_oneof![
+        4 => proptest::sample::select(vec![16384i16, 8192, 4096, 12288]),
+        2 => 1i16..=16384,
+        1 => proptest::sample::select(vec![1i16, 2, 16383]),
+    ]
+}
+
+fn axis_reg() -> impl Strategy<Value = AxisRegSpec> {
+    prop_oneof![
+        3 => any::<bool>().prop_map(AxisRegSpec::Zero),
+        5 => (mag(), any::<bool>()).prop_map(|(m, neg)| AxisRegSpec::Peak(if neg { -m } else { m })),
+        3 => (mag(), mag(), prop_oneof![1 => Just(0i16), 3 => mag()], any::<bool>(), 0u8..6).prop_map(|(a, b, c, neg, degen)| {
+            let mut v = [a, b, c];
+            v.sort();
+            // v[0] may be 0; the peak must not be
+            let (mut s, mut p, mut e) = (v[0], v[1], v[2]);
+            match degen {
+                0 => s = p,
+                1 => e = p,
+                _ => {}
+            }
+            if p == 0 {
+                p = 1;
+                s = s.min(p);
+                e = e.max(p);
+            }
+            if neg { AxisRegSpec::Inter(-e, -p, -s) } else { AxisRegSpec::Inter(s, p, e) }
+        }),
+        1 => (1i16..=8192, 1i16..=8192, 1i16..=8192, 0u8..3, any::<bool>()).prop_map(|(a, b, c, kind, neg)| {
+            let sg = if neg { -1 } else { 1 };
+            match kind {
+                // start > peak (peak ≤ end)
+                0 => AxisRegSpec::Invalid(sg * (a + b), sg * a, sg * (a + b + c)),
+                // peak > end (start ≤ peak)
+                1 => AxisRegSpec::Invalid(sg * a, sg * (a + b), sg * (a + b - 1).max(0)),
+                // region crosses zero although the peak is not zero
+                _ => AxisRegSpec::Invalid(-a, sg * b.min(a.min(c)), c),
+            }
+        }),
+    ]
+}
+
+fn tuple_spec() -> impl Strategy<Value = TupleSpec> {
+    (
+        proptest::collection::vec(axis_reg(), 3),
+        prop_oneof![3 => Just(PointMode::All), 5 => Just(PointMode::Private), 3 => Just(PointMode::Shared)],
+        (0u8..5, proptest::collection::vec(any::<u8>(), 22)),
+        proptest::collection::vec(proptest::bool::weighted(0.4), 4),
+        proptest::collection::vec((delta(), delta()), 22),
+        proptest::collection::vec((delta(), delta()), 4),
+        any::<bool>(),
+        proptest::bool::weighted(0.2),
+        any::<u32>(),
+    )
+        .prop_map(|(axes, mode, (density, mask_raw), phantom_mask, deltas, phantom_deltas, share_peak, explicit_inter, seed)| {
+            let thr = [40u8, 90, 128, 180, 230][density as usize];
+            TupleSpec {
+                axes,
+                mode,
+                mask: mask_raw.iter().map(|v| *v < thr).collect(),
+                phantom_mask,
+                deltas,
+                phantom_deltas,
+                share_peak,
+                explicit_inter,
+                seed,
+            }
+        })
+}
+
+fn comp_spec() -> impl Strategy<Value = CompSpec> {
+    (
+        any::<u32>(),
+        prop_oneof![2 => -100i16..=100, 1 => -1000i16..1000],
+        prop_oneof![2 => -100i16..=100, 1 => -1000i16..1000],
+        proptest::option::weighted(0.12, (any::<u32>(), any::<u32>())),
+        any::<bool>(),
+        any::<bool>(),
+    )
+        .prop_map(|(target, dx, dy, anchor, force_words, round)| CompSpec { target, dx, dy, anchor, force_words, round })
+}
+
+fn shape_spec() -> impl Strategy<Value = ShapeSpec> {
+    prop_oneof![
+        1 => Just(ShapeSpec::Empty),
+        8 => proptest::collection::vec(contour(), 1..=3).prop_map(ShapeSpec::Simple),
+        1 => (proptest::sample::select(vec![70u16, 130, 200, 300]), 1u8..=4, any::<u32>()).prop_map(|(n, contours, seed)| ShapeSpec::Big { n, contours, seed }),
+        3 => proptest::collection::vec(comp_spec(), 1..=3).prop_map(ShapeSpec::Composite),
+    ]
+}
+
+fn glyph_spec() -> impl Strategy<Value = GlyphSpec> {
+    (
+        shape_spec(),
+        200u16..1200,
+        prop_oneof![3 => Just(0i16), 1 => -60i16..60],
+        proptest::collection::vec(tuple_spec(), 0..=4),
+        proptest::option::weighted(
+            0.6,
+            (proptest::bool::weighted(0.2), proptest::collection::vec(proptest::bool::weighted(0.45), 22), proptest::collection::vec(proptest::bool::weighted(0.3), 4))
+                .prop_map(|(all, mask, phantom_mask)| SharedSpec { all, mask, phantom_mask }),
+        ),
+        prop_oneof![4 => Just(0u8), 1 => 1u8..5],
+    )
+        .prop_map(|(shape, advance, pp1, tuples, shared, data_gap)| GlyphSpec { shape, advance, pp1, tuples, shared, data_gap })
+}
+
+fn axis_spec() -> impl Strategy<Value = AxisSpec> {
+    (
+        prop_oneof![2 => Just(0i16), 2 => Just(400i16), 1 => -200i16..900],
+        prop_oneof![1 => Just(0u16), 4 => 1u16..600],
+        prop_oneof![1 => Just(0u16), 6 => 1u16..600],
+        proptest::collection::vec((1i16..16384, 0i16..=16384), 0..3),
+        proptest::bool::weighted(0.3),
+    )
+        .prop_map(|(default_units, below, above, avar, wght)| AxisSpec { default_units, below, above, avar, wght })
+}
+
+fn hvar_spec() -> impl Strategy<Value = HvarSpec> {
+    (
+        (any::<bool>(), proptest::bool::weighted(0.35), 1u8..=4, 0u8..4, proptest::bool::weighted(0.3)),
+        (1u8..=3, any::<bool>(), proptest::bool::weighted(0.12), 0u8..3, any::<u32>()),
+    )
+        .prop_map(|((mapped, lsb_map, entry_size, extra_inner_bits, format1), (subtables, truncate, long_words, extra_words, seed))| HvarSpec {
+            mapped,
+            lsb_map,
+            entry_size,
+            extra_inner_bits,
+            format1,
+            subtables,
+            truncate,
+            long_words,
+            extra_words,
+            seed,
+        })
+}
+
+const MVAR_TAGS: [&[u8; 4]; 26] = [
+    b"hasc", b"hdsc", b"hlgp", b"hcla", b"hcld", b"xhgt", b"cpht", b"unds", b"undo", b"stro", b"strs", b"sbxs", b"sbys", b"sbxo",
+    b"sbyo", b"spxs", b"spys", b"spxo", b"spyo", b"hcrs", b"hcrn", b"hcof", b"gsp0", b"zzzz", b"vasc", b"AAAA",
+];
+
+fn mvar_spec() -> impl Strategy<Value = MvarSpec> {
+    (
+        proptest::collection::vec(0u8..MVAR_TAGS.len() as u8, 1..=6),
+        proptest::collection::vec(proptest::collection::vec(axis_reg(), 3), 1..=3),
+        proptest::collection::vec(proptest::collection::vec(prop_oneof![3 => -100i16..=100, 1 => -300i16..=300], 3), 6),
+        prop_oneof![3 => Just(0u8), 1 => 1u8..6],
+        1u8..=2,
+        proptest::bool::weighted(0.1),
+    )
+        .prop_map(|(tags, regions, deltas, record_extra, subtables, long_words)| MvarSpec { tags, regions, deltas, record_extra, subtables, long_words })
+}
+
+fn shared_spec() -> impl Strategy<Value = SharedSpec> {
+    (proptest::bool::weighted(0.2), proptest::collection::vec(proptest::bool::weighted(0.45), 22), proptest::collection::vec(proptest::bool::weighted(0.3), 4))
+        .prop_map(|(all, mask, phantom_mask)| SharedSpec { all, mask, phantom_mask })
+}
+
+fn cvar_spec() -> impl Strategy<Value = CvarSpec> {
+    (1u8..60, any::<u32>(), proptest::collection::vec(tuple_spec(), 0..=3), proptest::option::weighted(0.5, shared_spec()))
+        .prop_map(|(n_cvts, seed, tuples, shared)| CvarSpec { n_cvts, seed, tuples, shared })
+}
+
+fn coord_spec() -> impl Strategy<Value = CoordSpec> {
+    (
+        prop_oneof![
+            1 => Just(0u8), // default
+            1 => Just(1u8), // min
+            1 => Just(2u8), // max
+            5 => Just(3u8), // a region start/peak/end of the font, mapped back to user space
+            2 => Just(4u8), // the same ± raw units
+            4 => Just(5u8), // random inside
+            1 => Just(6u8), // outside
+            2 => Just(7u8), // palette of normalised values
+        ],
+        any::<u32>(),
+        prop_oneof![Just(-1i8), Just(1i8), Just(2i8), Just(-3i8)],
+    )
+        .prop_map(|(kind, r, off)| CoordSpec { kind, r, off })
+}
+
+pub fn case_strategy() -> impl Strategy<Value = Case> {
+    (
+        proptest::collection::vec(axis_spec(), 1..=3),
+        proptest::bool::weighted(0.3),
+        proptest::collection::vec(glyph_spec(), 1..=5),
+        proptest::option::weighted(0.5, hvar_spec()),
+        (proptest::option::weighted(0.4, mvar_spec()), proptest::option::weighted(0.25, cvar_spec())),
+        proptest::collection::vec(proptest::collection::vec(coord_spec(), 3), 5),
+        (any::<bool>(), any::<bool>(), proptest::bool::weighted(0.3), 0u8..3, any::<u64>(), proptest::bool::weighted(0.1)),
+    )
+        .prop_map(|(axes, with_avar, glyphs, hvar, (mvar, cvar), coords, (long_gvar, long_loca, short_hmtx, extra_shared_tuples, enc_seed, invalid_regions))| Case {
+            axes,
+            with_avar,
+            glyphs,
+            hvar,
+            mvar,
+            cvar,
+            coords,
+            long_gvar,
+            long_loca,
+            short_hmtx,
+            extra_shared_tuples,
+            enc_seed,
+            invalid_regions,
+        })
+}
+
+// ------------------------------------------------------------------ model resolution
+
+#[derive(Clone, Debug, PartialEq)]
+enum Kind {
+    Empty,
+    Simple,
+    Composite,
+}
+
+#[derive(Clone, Debug)]
+struct GlyphModel {
+    kind: Kind,
+    /// simple: the points; composite/empty: empty
+    coords: Vec<(i16, i16)>,
+    on: Vec<bool>,
+    /// inclusive end index per contour
+    ends: Vec<usize>,
+    comps: Vec<ComponentEnc>,
+    /// raw 2.14 transform words per component (fixtures; generated composites have none)
+    transforms: Vec<Vec<i16>>,
+    /// points of a simple glyph / components of a composite
+    n_points: usize,
+    tuples: Vec<TupleVar>,
+    enc: GlyphVarEnc,
+    advance: u16,
+    lsb: i16,
+    /// header bounding box of the source record
+    bbox: (i16, i16, i16, i16),
+    record: Vec<u8>,
+    big: bool,
+}
+
+/// What the oracle knows about a variable font (generated, or decoded from a fixture).
+struct Model {
+    glyphs: Vec<GlyphModel>,
+    hvar: Option<HvarModel>,
+    /// the HVAR advance deltas equal the gvar phantom point deltas by construction
+    hvar_consistent: bool,
+    hvar_lsb_mapped: bool,
+    mvar: Option<(Vec<([u8; 4], u16, u16)>, IvsModel)>,
+    /// cvt values and the cvar tuple variations (deltas in .0)
+    cvt: Option<(Vec<i16>, Vec<TupleVar>)>,
+}
+
+struct Built {
+    font: Vec<u8>,
+    model: Model,
+    axes: Vec<AxisModel>,
+    stats: EncStats,
+    all_regions: Vec<Region>,
+}
+
+fn resolve_region(spec: &[AxisRegSpec], n_axes: usize, allow_invalid: bool) -> Region {
+    let mut r: Region = spec
+        .iter()
+        .take(n_axes)
+        .map(|a| match a {
+            AxisRegSpec::Invalid(s, p, e) if allow_invalid => AxisRegion { start: *s, peak: *p, end: *e },
+            AxisRegSpec::Invalid(_, p, _) => implied_axis_region(*p),
+            AxisRegSpec::Zero(false) => AxisRegion { start: 0, peak: 0, end: 0 },
+            AxisRegSpec::Zero(true) => AxisRegion { start: -16384, peak: 0, end: 16384 },
+            AxisRegSpec::Peak(p) => implied_axis_region(*p),
+            AxisRegSpec::Inter(s, p, e) => AxisRegion { start: *s, peak: *p, end: *e },
+        })
+        .collect();
+    // a region whose peaks are all zero would apply (scalar 1) at the default location too:
+    // such data is not a variation of the default master. Excluded by construction.
+    if r.iter().all(|a| a.peak == 0) {
+        r[0] = implied_axis_region(16384);
+    }
+    // an invalid axis counts as "ignored" (scalar 1) per the specification: the same exclusion
+    // applies, some *valid* axis must have a non-zero peak
+    if !r.iter().any(|a| a.peak != 0 && !axis_region_invalid(*a)) {
+        for a in r.iter_mut() {
+            if axis_region_invalid(*a) {
+                *a = implied_axis_region(a.peak);
+            }
+        }
+    }
+    // "wide" zero axes only exist with explicit start/end tuples; keep them only if some
+    // other axis makes the tuple intermediate anyway, otherwise they would force the flag —
+    // that is still legal, so leave as is.
+    r
+}
+
+fn big_points(n: usize, contours: usize, seed: u32) -> (Vec<Vec<Pt>>, usize) {
+    let c = contours.max(1).min(n);
+    let mut out = Vec::new();
+    let mut i = 0usize;
+    for k in 0..c {
+        let len = if k + 1 == c { n - i } else { n / c };
+        let mut v = Vec::new();
+        for j in 0..len {
+            let h = mix64(((seed as u64) << 20) ^ (i + j) as u64);
+            v.push((((h % 21) as i16) * 50, (((h >> 8) % 21) as i16) * 50, (h >> 16) & 3 != 0));
+        }
+        i += len;
+        out.push(v);
+    }
+    (out, n)
+}
+
+fn mask_at(mask: &[bool], seed: u32, i: usize) -> bool {
+    let base = mask[i % mask.len()];
+    if i < mask.len() {
+        base
+    } else {
+        base ^ (mix64(((seed as u64) << 24) ^ (i / mask.len()) as u64 ^ 0x55) & 3 == 0)
+    }
+}
+
+fn delta_at(deltas: &[(i16, i16)], seed: u32, i: usize) -> (i16, i16) {
+    let base = deltas[i % deltas.len()];
+    if i < deltas.len() {
+        return base;
+    }
+    let h = mix64(((seed as u64) << 24) ^ i as u64);
+    match h & 3 {
+        0 => (0, 0),
+        1 => base,
+        2 => (base.0, 0),
+        _ => (base.0.wrapping_add(((h >> 8) % 41) as i16 - 20), base.1.wrapping_sub(((h >> 16) % 41) as i16 - 20)),
+    }
+}
+
+fn subset(mask: &[bool], phantom_mask: &[bool], seed: u32, n: usize) -> Vec<u16> {
+    let mut v: Vec<u16> = (0..n).filter(|i| mask_at(mask, seed, *i)).map(|i| i as u16).collect();
+    for k in 0..4 {
+        if phantom_mask[k] {
+            v.push((n + k) as u16);
+        }
+    }
+    if v.is_empty() {
+        v.push(0);
+    }
+    v
+}
+
+fn build(case: &Case) -> Built {
+    let n_axes = case.axes.len();
+    let mut ch = Choices::new(case.enc_seed);
+    let mut stats = EncStats::default();
+
+    // ---- shapes, pass 1: simple / empty
+    let mut glyphs: Vec<GlyphModel> = Vec::new();
+    for g in &case.glyphs {
+        let (contours, big) = match &g.shape {
+            ShapeSpec::Simple(c) => (c.clone(), false),
+            ShapeSpec::Big { n, contours, seed } => (big_points(*n as usize, *contours as usize, *seed).0, true),
+            _ => (Vec::new(), false),
+        };
+        let contours: Vec<Vec<Pt>> = contours.into_iter().filter(|c| !c.is_empty()).collect();
+        let sg = SimpleGlyph { contours: contours.clone(), instructions: if big { vec![] } else { vec![0xB0, 0x01] } };
+        let flat: Vec<Pt> = contours.iter().flatten().copied().collect();
+        let mut ends = Vec::new();
+        let mut e = 0usize;
+        for c in &contours {
+            e += c.len();
+            ends.push(e - 1);
+        }
+        let kind = if flat.is_empty() { Kind::Empty } else { Kind::Simple };
+        let is_comp = matches!(g.shape, ShapeSpec::Composite(_));
+        glyphs.push(GlyphModel {
+            kind: if is_comp { Kind::Composite } else { kind },
+            coords: flat.iter().map(|p| (p.0, p.1)).collect(),
+            on: flat.iter().map(|p| p.2).collect(),
+            ends,
+            comps: Vec::new(),
+            transforms: Vec::new(),
+            n_points: flat.len(),
+            tuples: Vec::new(),
+            enc: GlyphVarEnc::default(),
+            advance: g.advance,
+            lsb: 0,
+            bbox: if flat.is_empty() { (0, 0, 0, 0) } else { sg.bbox() },
+            record: if flat.is_empty() { Vec::new() } else { glyf_simple(&sg) },
+            big,
+        });
+    }
+    // ---- shapes, pass 2: composites of simple glyphs (one level)
+    let simple_ids: Vec<usize> = (0..glyphs.len()).filter(|i| glyphs[*i].kind == Kind::Simple && !glyphs[*i].big).collect();
+    for (gi, g) in case.glyphs.iter().enumerate() {
+        if let ShapeSpec::Composite(cs) = &g.shape {
+            if simple_ids.is_empty() {
+                glyphs[gi].kind = Kind::Empty;
+                continue;
+            }
+            let mut comps: Vec<ComponentEnc> = Vec::new();
+            let mut acc: Vec<(i32, i32)> = Vec::new();
+            for c in cs {
+                let target = simple_ids[pick(simple_ids.len(), c.target)];
+                let child: Vec<(i32, i32)> = glyphs[target].coords.iter().map(|p| (p.0 as i32, p.1 as i32)).collect();
+                let (args, off) = match c.anchor {
+                    Some((a, b)) if !acc.is_empty() => {
+                        let p = pick(acc.len(), a);
+                        let q = pick(child.len(), b);
+                        (CompArgs::Points(p as u16, q as u16), (acc[p].0 - child[q].0, acc[p].1 - child[q].1))
+                    }
+                    _ => (CompArgs::Offset(c.dx, c.dy), (c.dx as i32, c.dy as i32)),
+                };
+                acc.extend(child.iter().map(|p| (p.0 + off.0, p.1 + off.1)));
+                comps.push(ComponentEnc { glyph: target as u16, args, force_words: c.force_words, round_to_grid: c.round });
+            }
+            let bbox = (
+                acc.iter().map(|p| p.0).min().unwrap() as i16,
+                acc.iter().map(|p| p.1).min().unwrap() as i16,
+                acc.iter().map(|p| p.0).max().unwrap() as i16,
+                acc.iter().map(|p| p.1).max().unwrap() as i16,
+            );
+            let m = &mut glyphs[gi];
+            m.n_points = comps.len();
+            m.record = glyf_composite(bbox, &comps);
+            m.comps = comps;
+            m.bbox = bbox;
+        }
+    }
+    // ---- metrics: lsb = xMin - pp1 (empty glyph: xMin counts as 0, lsb 0 as the spec asks)
+    for (gi, g) in case.glyphs.iter().enumerate() {
+        let m = &mut glyphs[gi];
+        m.lsb = if m.kind == Kind::Empty { 0 } else { m.bbox.0 - g.pp1 };
+    }
+    if case.short_hmtx && glyphs.len() >= 2 {
+        // trailing glyphs share the advance of the last long metric
+        let n = glyphs.len();
+        let a = glyphs[n - 2].advance;
+        glyphs[n - 1].advance = a;
+    }
+
+    // ---- tuple variations
+    let mut all_regions: Vec<Region> = Vec::new();
+    let mut shared_peak_pool: Vec<Vec<i16>> = Vec::new();
+    for (gi, g) in case.glyphs.iter().enumerate() {
+        let n = glyphs[gi].n_points;
+        let n_total = n + 4;
+        let shared_list: Option<Option<Vec<u16>>> = g.shared.as_ref().map(|s| if s.all { None } else { Some(subset(&s.mask, &s.phantom_mask, 0x5a5a, n)) });
+        let mut enc = GlyphVarEnc { shared_points: None, tuples: Vec::new(), data_gap: g.data_gap as usize };
+        let mut any_shared_use = false;
+        for t in &g.tuples {
+            let region = resolve_region(&t.axes, n_axes, case.invalid_regions);
+            let (points, use_shared): (Option<Vec<u16>>, bool) = match (&t.mode, &shared_list) {
+                (PointMode::Shared, Some(sl)) => (sl.clone(), true),
+                (PointMode::All, _) => (None, false),
+                _ => (Some(subset(&t.mask, &t.phantom_mask, t.seed, n)), false),
+            };
+            let deltas: Vec<(i16, i16)> = match &points {
+                None => (0..n_total).map(|i| if i < n { delta_at(&t.deltas, t.seed, i) } else { t.phantom_deltas[i - n] }).collect(),
+                Some(ps) => ps
+                    .iter()
+                    .map(|p| {
+                        let i = *p as usize;
+                        if i < n {
+                            delta_at(&t.deltas, t.seed, i)
+                        } else {
+                            t.phantom_deltas[i - n]
+                        }
+                    })
+                    .collect(),
+            };
+            let var = TupleVar { region: region.clone(), points, deltas };
+            if !all_regions.contains(&region) {
+                all_regions.push(region.clone());
+            }
+            if t.share_peak {
+                let peak: Vec<i16> = region.iter().map(|r| r.peak).collect();
+                if !shared_peak_pool.contains(&peak) {
+                    shared_peak_pool.push(peak);
+                }
+            }
+            any_shared_use |= use_shared;
+            enc.tuples.push(TupleEnc { var: var.clone(), intermediate: t.explicit_inter, share_peak: t.share_peak, use_shared_points: use_shared });
+            glyphs[gi].tuples.push(var);
+        }
+        // the shared point data is written when a tuple uses it, and sometimes although none does
+        if any_shared_use || (shared_list.is_some() && !enc.tuples.is_empty() && ch.chance(1, 3)) {
+            enc.shared_points = shared_list;
+        }
+        glyphs[gi].enc = enc;
+    }
+    // shared tuple array: the pooled peaks, some unused extras, shuffled a little
+    for k in 0..case.extra_shared_tuples {
+        let t: Vec<i16> = (0..n_axes).map(|a| if (k as usize + a) % 2 == 0 { 16384 } else { -8192 + k as i16 }).collect();
+        if !shared_peak_pool.contains(&t) {
+            let at = ch.below(shared_peak_pool.len() + 1);
+            shared_peak_pool.insert(at, t);
+        }
+    }
+    let encs: Vec<GlyphVarEnc> = glyphs.iter().map(|g| g.enc.clone()).collect();
+    let gvar = gvar_table(n_axes, &encs, &shared_peak_pool, case.long_gvar, &mut ch, &mut stats);
+
+    // ---- fvar / avar
+    let axes: Vec<AxisModel> = case
+        .axes
+        .iter()
+        .enumerate()
+        .map(|(i, a)| {
+            let d = (a.default_units as i32) << 16;
+            AxisModel {
+                tag: if a.wght && i == 0 { *b"wght" } else { [b'A', b'X', b'0', b'0' + i as u8] },
+                min: d - ((a.below as i32) << 16),
+                default: d,
+                max: d + ((a.above as i32) << 16),
+                flags: 0,
+                name_id: 256 + i as u16,
+            }
+        })
+        .collect();
+    let fvar = fvar_table(&axes, &[], 0);
+    let avar = if case.with_avar {
+        let maps: Vec<Vec<(i16, i16)>> = case
+            .axes
+            .iter()
+            .map(|a| {
+                // valid per spec: from strictly increasing, to non-decreasing, -1→-1, 0→0, 1→1
+                let mut m = vec![(-16384i16, -16384i16), (0, 0), (16384, 16384)];
+                let mut ks: Vec<(i16, i16)> = a.avar.clone();
+                ks.sort();
+                ks.dedup_by_key(|k| k.0);
+                let mut tos: Vec<i16> = ks.iter().map(|k| k.1).collect();
+                tos.sort();
+                for (i, k) in ks.iter().enumerate() {
+                    if k.0 < 16384 {
+                        if i % 2 == 0 {
+                            m.push((k.0, tos[i]));
+                        } else {
+                            m.push((-k.0, -tos[i]));
+                        }
+                    }
+                }
+                m.sort();
+                m.dedup_by_key(|k| k.0);
+                for i in 1..m.len() {
+                    if m[i].1 < m[i - 1].1 {
+                        m[i].1 = m[i - 1].1;
+                    }
+                }
+                let z = m.iter().position(|k| k.0 == 0).unwrap();
+                for (i, k) in m.iter_mut().enumerate() {
+                    if i < z {
+                        k.1 = k.1.min(0);
+                    } else if i == z {
+                        k.1 = 0;
+                    } else {
+                        k.1 = k.1.max(0);
+                    }
+                }
+                let last = m.len() - 1;
+                m[0].1 = -16384;
+                m[last].1 = 16384;
+                for i in 1..m.len() {
+                    if m[i].1 < m[i - 1].1 {
+                        m[i].1 = m[i - 1].1;
+                    }
+                }
+                m
+            })
+            .collect();
+        Some(avar_table(&maps))
+    } else {
+        None
+    };
+
+    // ---- HVAR, consistent with the phantom point deltas of gvar
+    let mut hvar_model = None;
+    let mut hvar_bytes = None;
+    let mut hvar_lsb_mapped = false;
+    if let Some(h) = &case.hvar {
+        let mut regions = all_regions.clone();
+        if regions.is_empty() || h.seed & 1 == 1 {
+            regions.push((0..n_axes).map(|a| implied_axis_region(if a == 0 { 16384 } else { 0 })).collect());
+        }
+        let nr = regions.len();
+        let mut adv_rows: Vec<Vec<i32>> = Vec::new();
+        for g in &glyphs {
+            let mut row = vec![0i32; nr];
+            for t in &g.tuples {
+                let ri = regions.iter().position(|r| *r == t.region).unwrap();
+                let get = |pn: usize| -> i32 {
+                    match &t.points {
+                        None => t.deltas[pn].0 as i32,
+                        Some(ps) => ps.iter().position(|p| *p as usize == pn).map(|k| t.deltas[k].0 as i32).unwrap_or(0),
+                    }
+                };
+                row[ri] += get(g.n_points + 1) - get(g.n_points);
+            }
+            adv_rows.push(row);
+        }
+        let all_cols: Vec<u16> = {
+            // a permutation of the region indexes
+            let mut v: Vec<u16> = (0..nr as u16).collect();
+            let mut c2 = Choices::new(h.seed as u64);
+            for i in (1..v.len()).rev() {
+                v.swap(i, c2.below(i + 1));
+            }
+            v
+        };
+        let project = |rows: &[Vec<i32>], cols: &[u16]| -> Vec<Vec<i32>> { rows.iter().map(|r| cols.iter().map(|c| r[*c as usize]).collect()).collect() };
+        let mut subs: Vec<IvdEnc> = Vec::new();
+        let mut adv_entries: Vec<(u16, u16)> = Vec::new();
+        if !h.mapped {
+            subs.push(IvdEnc::normalise(all_cols.clone(), project(&adv_rows, &all_cols), h.long_words, h.extra_words as usize));
+        } else {
+            let k = (h.subtables as usize).min(glyphs.len()).max(1);
+            let mut groups: Vec<Vec<usize>> = vec![Vec::new(); k];
+            for g in 0..glyphs.len() {
+                groups[(mix64(h.seed as u64 ^ (g as u64) << 8) % k as u64) as usize].push(g);
+            }
+            adv_entries = vec![(0, 0); glyphs.len()];
+            for grp in groups.iter().filter(|g| !g.is_empty()) {
+                let cols: Vec<u16> = if h.seed & 2 == 0 {
+                    all_cols.clone()
+                } else {
+                    all_cols.iter().copied().filter(|c| grp.iter().any(|g| adv_rows[*g][*c as usize] != 0)).collect()
+                };
+                // identical rows are stored once
+                let mut rows: Vec<Vec<i32>> = Vec::new();
+                for g in grp {
+                    let r: Vec<i32> = cols.iter().map(|c| adv_rows[*g][*c as usize]).collect();
+                    let ix = match rows.iter().position(|x| *x == r) {
+                        Some(ix) if h.seed & 4 == 0 => ix,
+                        _ => {
+                            rows.push(r);
+                            rows.len() - 1
+                        }
+                    };
+                    adv_entries[*g] = (subs.len() as u16, ix as u16);
+                }
+                subs.push(IvdEnc::normalise(cols, rows, h.long_words, h.extra_words as usize));
+            }
+        }
+        let mut lsb_entries: Vec<(u16, u16)> = Vec::new();
+        if h.lsb_map {
+            hvar_lsb_mapped = true;
+            let rows: Vec<Vec<i32>> = (0..glyphs.len())
+                .map(|g| (0..nr).map(|r| (mix64(h.seed as u64 ^ ((g * 31 + r) as u64) << 12) % 81) as i32 - 40).collect())
+                .collect();
+            lsb_entries = (0..glyphs.len()).map(|g| (subs.len() as u16, g as u16)).collect();
+            subs.push(IvdEnc::normalise(all_cols.clone(), project(&rows, &all_cols), false, 0));
+        }
+        let ivs_model = IvsModel { regions: regions.clone(), subtables: subs.iter().map(|s| (s.region_indexes.clone(), s.rows.clone())).collect() };
+        let ivs = item_variation_store(n_axes, &regions, &subs);
+        let enc_map = |entries: &[(u16, u16)], truncate: bool| -> (Vec<u8>, Vec<(u16, u16)>) {
+            let mut e = entries.to_vec();
+            if truncate {
+                while e.len() >= 2 && e[e.len() - 1] == e[e.len() - 2] {
+                    e.pop();
+                }
+            }
+            let (ib, _) = min_map_format(&e);
+            let ib = (ib + h.extra_inner_bits).min(16);
+            let max_outer = e.iter().map(|x| x.0).max().unwrap_or(0) as u32;
+            let ob = 32 - max_outer.leading_zeros();
+            let need = ((ib as u32 + ob + 7) / 8).max(1) as u8;
+            let size = need.max(h.entry_size).min(4);
+            (delta_set_index_map(&e, ib, size, if h.format1 { 1 } else { 0 }), e)
+        };
+        let adv = if h.mapped { Some(enc_map(&adv_entries, h.truncate)) } else { None };
+        let lsb = if h.lsb_map { Some(enc_map(&lsb_entries, false)) } else { None };
+        let bytes = hvar_table(&ivs, adv.as_ref().map(|m| m.0.as_slice()), lsb.as_ref().map(|m| m.0.as_slice()), None);
+        let model = HvarModel { ivs: ivs_model, adv_map: adv.map(|m| m.1), lsb_map: lsb.map(|m| m.1) };
+        // self-check of the encoder/decoder pair (both mine)
+        let dec = decode_hvar(&bytes).expect("own HVAR decodes");
+        assert_eq!(dec.ivs, model.ivs, "HVAR store round trip");
+        assert_eq!(dec.adv_map, model.adv_map, "HVAR advance map round trip");
+        assert_eq!(dec.lsb_map, model.lsb_map, "HVAR lsb map round trip");
+        hvar_model = Some(model);
+        hvar_bytes = Some(bytes);
+    }
+
+    // ---- MVAR
+    let mut mvar_model = None;
+    let mut mvar_bytes = None;
+    if let Some(m) = &case.mvar {
+        let mut regions: Vec<Region> = Vec::new();
+        for r in &m.regions {
+            let reg = resolve_region(r, n_axes, case.invalid_regions);
+            if !regions.contains(&reg) {
+                regions.push(reg);
+            }
+        }
+        for r in &regions {
+            if !all_regions.contains(r) {
+                all_regions.push(r.clone());
+            }
+        }
+        let mut tags: Vec<[u8; 4]> = Vec::new();
+        for t in &m.tags {
+            let tag = *MVAR_TAGS[*t as usize];
+            if !tags.contains(&tag) {
+                tags.push(tag);
+            }
+        }
+        let k = (m.subtables as usize).max(1);
+        let cols: Vec<u16> = (0..regions.len() as u16).collect();
+        let mut rows: Vec<Vec<Vec<i32>>> = vec![Vec::new(); k];
+        let mut recs: Vec<([u8; 4], u16, u16)> = Vec::new();
+        for (i, tag) in tags.iter().enumerate() {
+            let sub = i % k;
+            let row: Vec<i32> = (0..regions.len()).map(|r| m.deltas[i % m.deltas.len()][r % 3] as i32).collect();
+            recs.push((*tag, sub as u16, rows[sub].len() as u16));
+            rows[sub].push(row);
+        }
+        let subs: Vec<IvdEnc> = rows.into_iter().map(|r| IvdEnc::normalise(cols.clone(), r, m.long_words, 0)).collect();
+        let ivs_model = IvsModel { regions: regions.clone(), subtables: subs.iter().map(|s| (s.region_indexes.clone(), s.rows.clone())).collect() };
+        let ivs = item_variation_store(n_axes, &regions, &subs);
+        let bytes = mvar_table(&recs, 8 + m.record_extra as u16 * 2, Some(&ivs));
+        let (drecs, divs) = decode_mvar(&bytes).expect("own MVAR decodes");
+        let mut sorted = recs.clone();
+        sorted.sort();
+        assert_eq!(drecs, sorted, "MVAR records round trip");
+        assert_eq!(divs.as_ref(), Some(&ivs_model), "MVAR store round trip");
+        mvar_model = Some((recs, ivs_model));
+        mvar_bytes = Some(bytes);
+    }
+
+    // ---- cvt / cvar
+    let mut cvt_model = None;
+    let mut cvt_bytes = None;
+    let mut cvar_bytes = None;
+    if let Some(c) = &case.cvar {
+        let n = c.n_cvts as usize;
+        let vals: Vec<i16> = (0..n).map(|i| (mix64(((c.seed as u64) << 16) ^ i as u64) % 2001) as i16 - 1000).collect();
+        let no_ph = [false; 4];
+        let shared_list: Option<Option<Vec<u16>>> = c.shared.as_ref().map(|s| if s.all { None } else { Some(subset(&s.mask, &no_ph, 0x5a5a, n)) });
+        let mut enc = GlyphVarEnc { shared_points: None, tuples: Vec::new(), data_gap: (c.seed % 3) as usize };
+        let mut tvs = Vec::new();
+        let mut any_shared = false;
+        for t in &c.tuples {
+            let region = resolve_region(&t.axes, n_axes, case.invalid_regions);
+            let (points, use_shared): (Option<Vec<u16>>, bool) = match (&t.mode, &shared_list) {
+                (PointMode::Shared, Some(sl)) => (sl.clone(), true),
+                (PointMode::All, _) => (None, false),
+                _ => (Some(subset(&t.mask, &no_ph, t.seed, n)), false),
+            };
+            let deltas: Vec<(i16, i16)> = match &points {
+                None => (0..n).map(|i| (delta_at(&t.deltas, t.seed, i).0, 0)).collect(),
+                Some(ps) => ps.iter().map(|p| (delta_at(&t.deltas, t.seed, *p as usize).0, 0)).collect(),
+            };
+            if !all_regions.contains(&region) {
+                all_regions.push(region.clone());
+            }
+            let var = TupleVar { region, points, deltas };
+            any_shared |= use_shared;
+            enc.tuples.push(TupleEnc { var: var.clone(), intermediate: t.explicit_inter, share_peak: false, use_shared_points: use_shared });
+            tvs.push(var);
+        }
+        if any_shared || (shared_list.is_some() && !enc.tuples.is_empty() && ch.chance(1, 3)) {
+            enc.shared_points = shared_list;
+        }
+        cvt_bytes = Some(vals.iter().flat_map(|v| v.to_be_bytes()).collect::<Vec<u8>>());
+        if !tvs.is_empty() {
+            let bytes = cvar_table(n_axes, &enc, &mut ch, &mut stats);
+            let dec = decode_cvar(&bytes, n_axes, n).expect("own cvar decodes");
+            assert_eq!(dec, tvs, "cvar round trip");
+            cvar_bytes = Some(bytes);
+        }
+        cvt_model = Some((vals, tvs));
+    }
+
+    // ---- the font
+    let n = glyphs.len();
+    let mut f = BasicFont::with_glyphs(n as u16);
+    f.glyph_records = glyphs.iter().map(|g| g.record.clone()).collect();
+    f.metrics = glyphs.iter().map(|g| (g.advance, g.lsb)).collect();
+    f.num_h_metrics = if case.short_hmtx && n >= 2 { (n - 1) as u16 } else { n as u16 };
+    f.long_loca = case.long_loca;
+    f.cmap = BTreeMap::new();
+    for g in 0..n.min(26) {
+        f.cmap.insert(0x41 + g as u32, g as u16);
+    }
+    f.extra.push((*b"fvar", fvar));
+    f.extra.push((*b"gvar", gvar.clone()));
+    if let Some(a) = avar {
+        f.extra.push((*b"avar", a));
+    }
+    if let Some(h) = hvar_bytes {
+        f.extra.push((*b"HVAR", h));
+    }
+    if let Some(m) = mvar_bytes {
+        f.extra.push((*b"MVAR", m));
+    }
+    if let Some(c) = cvt_bytes {
+        f.extra.push((*b"cvt ", c));
+    }
+    if let Some(c) = cvar_bytes {
+        f.extra.push((*b"cvar", c));
+    }
+    // self-check: my gvar decoder reads back the model from my encoder's bytes
+    let np: Vec<usize> = glyphs.iter().map(|g| g.n_points).collect();
+    let dec = decode_gvar(&gvar, &np).expect("own gvar decodes");
+    for (g, d) in glyphs.iter().zip(dec.iter()) {
+        assert_eq!(&g.tuples, d, "gvar round trip");
+    }
+    Built {
+        font: f.build(),
+        model: Model { glyphs, hvar: hvar_model, hvar_consistent: true, hvar_lsb_mapped, mvar: mvar_model, cvt: cvt_model },
+        axes,
+        stats,
+        all_regions,
+    }
+}
+
+// ------------------------------------------------------------------ the check
+
+fn fail(sig: &str, msg: String) -> Fail {
+    Fail::new(format!("C12:{}", sig), msg)
+}
+
+fn user_value(spec: &CoordSpec, ax: &AxisModel, axis_index: usize, regions: &[Region]) -> i32 {
+    let (min, def, max) = (ax.min as i64, ax.default as i64, ax.max as i64);
+    let from_norm = |n: i64| -> i64 {
+        if n < 0 {
+            def + n * (def - min) / 16384
+        } else {
+            def + n * (max - def) / 16384
+        }
+    };
+    let v: i64 = match spec.kind {
+        0 => def,
+        1 => min,
+        2 => max,
+        3 | 4 => {
+            let mut vals: Vec<i16> = Vec::new();
+            for r in regions {
+                if let Some(a) = r.get(axis_index) {
+                    vals.extend_from_slice(&[a.start, a.peak, a.end]);
+                }
+            }
+            if vals.is_empty() {
+                def
+            } else {
+                let n = vals[pick(vals.len(), spec.r)] as i64;
+                from_norm(n) + if spec.kind == 4 { spec.off as i64 } else { 0 }
+            }
+        }
+        5 => min + ((spec.r as u64 * ((max - min) as u64 + 1)) >> 32) as i64,
+        6 => {
+            if spec.r & 1 == 0 {
+                max + 1 + (spec.r >> 8) as i64
+            } else {
+                min - 1 - (spec.r >> 8) as i64
+            }
+        }
+        _ => {
+            let pal = [-16384i64, -12288, -8192, -4096, -1, 1, 4096, 8192, 12288, 16384, 6000, -6000];
+            from_norm(pal[pick(pal.len(), spec.r)])
+        }
+    };
+    v.clamp(i32::MIN as i64, i32::MAX as i64) as i32
+}
+
+fn check_instance(b: &Model, src: &ParsedFont, src_fields: &[([u8; 4], i32)], out_bytes: &[u8], loc: &[i16], rec: &mut Rec, agg: &mut Agg) -> CaseResult {
+    let at_default = loc.iter().all(|v| *v == 0);
+    let out = read_font(out_bytes).map_err(|e| fail("output-unreadable", format!("instanced font not readable by the independent reader: {}", e)))?;
+    // static: no variation tables
+    for t in &out.tags {
+        if &t[1..] == b"var" || &t[1..] == b"VAR" {
+            return Err(fail("var-table-in-output", format!("output still contains table {:?}", String::from_utf8_lossy(t))));
+        }
+    }
+    if out.glyphs.len() != b.glyphs.len() {
+        return Err(fail("glyph-count", format!("{} glyphs in, {} out", b.glyphs.len(), out.glyphs.len())));
+    }
+    let mut evals = Vec::new();
+    for (gi, g) in b.glyphs.iter().enumerate() {
+        let ev = eval_glyph(g.n_points, &g.coords, &g.ends, &g.tuples, loc);
+        let og = &out.glyphs[gi];
+        let ctx = |what: &str| format!("glyph {} ({:?}, {} tuples) at {:?}: {}", gi, g.kind, g.tuples.len(), loc, what);
+        match (&g.kind, &og.shape) {
+            (Kind::Empty, OutShape::Empty) => {}
+            (Kind::Simple, OutShape::Simple { ends, points, instructions }) => {
+                let src_g = match &src.glyphs[gi].shape {
+                    OutShape::Simple { instructions, .. } => instructions.clone(),
+                    _ => Vec::new(),
+                };
+                if ends.iter().map(|e| *e as usize).collect::<Vec<_>>() != g.ends || points.len() != g.n_points {
+                    return Err(fail("contour-structure", ctx(&format!("contour ends {:?} / {} points, source {:?} / {}", ends, points.len(), g.ends, g.n_points))));
+                }
+                if *instructions != src_g {
+                    return Err(fail("instructions", ctx("instructions changed")));
+                }
+                for (i, p) in points.iter().enumerate() {
+                    if p.2 != g.on[i] {
+                        return Err(fail("on-curve-flag", ctx(&format!("point {} on-curve flag changed", i))));
+                    }
+                    let rx = g.coords[i].0 as f64 + ev.deltas[i].0;
+                    let ry = g.coords[i].1 as f64 + ev.deltas[i].1;
+                    let (ex, ey) = ((p.0 as f64 - rx).abs(), (p.1 as f64 - ry).abs());
+                    if at_default && (p.0 != g.coords[i].0 || p.1 != g.coords[i].1) {
+                        return Err(fail("default-outline", ctx(&format!("point {} is ({}, {}) in the default instance, source ({}, {})", i, p.0, p.1, g.coords[i].0, g.coords[i].1))));
+                    }
+                    if ex > TOL || ey > TOL {
+                        return Err(fail(
+                            "point",
+                            ctx(&format!(
+                                "point {} is ({}, {}), reference ({:.4}, {:.4}) = source ({}, {}) + ({:.4}, {:.4}); tuples {:?}; source contour ends {:?} coords {:?}",
+                                i, p.0, p.1, rx, ry, g.coords[i].0, g.coords[i].1, ev.deltas[i].0, ev.deltas[i].1, g.tuples, g.ends,
+                                if g.coords.len() <= 24 { format!("{:?}", g.coords) } else { format!("{} points", g.coords.len()) }
+                            )),
+                        ));
+                    }
+                }
+                // header bbox = bbox of the written points
+                let bb = bbox_of(&points.iter().map(|p| (p.0 as f64, p.1 as f64)).collect::<Vec<_>>()).unwrap();
+                let hb = (og.bbox.0 as f64, og.bbox.1 as f64, og.bbox.2 as f64, og.bbox.3 as f64);
+                if bb != hb {
+                    return Err(fail("bbox-simple", ctx(&format!("header bbox {:?} but the points span {:?}", og.bbox, bb))));
+                }
+            }
+            (Kind::Composite, OutShape::Composite { components, instructions }) => {
+                let src_instr = match &src.glyphs[gi].shape {
+                    OutShape::Composite { instructions, .. } => instructions.clone(),
+                    _ => Vec::new(),
+                };
+                if components.len() != g.comps.len() {
+                    return Err(fail("component-structure", ctx(&format!("{} components out, {} in", components.len(), g.comps.len()))));
+                }
+                if *instructions != src_instr {
+                    return Err(fail("instructions", ctx("composite instructions changed")));
+                }
+                for (i, (oc, sc)) in components.iter().zip(g.comps.iter()).enumerate() {
+                    let src_tr: &[i16] = g.transforms.get(i).map(|t| t.as_slice()).unwrap_or(&[]);
+                    if oc.glyph != sc.glyph || oc.transform != src_tr {
+                        return Err(fail("component-structure", ctx(&format!("component {} refers to glyph {} transform {:?} (source {} {:?})", i, oc.glyph, oc.transform, sc.glyph, src_tr))));
+                    }
+                    match sc.args {
+                        CompArgs::Offset(x, y) => {
+                            if !oc.xy {
+                                return Err(fail("component-args-kind", ctx(&format!("component {} lost ARGS_ARE_XY_VALUES", i))));
+                            }
+                            let (rx, ry) = (x as f64 + ev.deltas[i].0, y as f64 + ev.deltas[i].1);
+                            if at_default && (oc.arg1 != x as i32 || oc.arg2 != y as i32) {
+                                return Err(fail("default-component-offset", ctx(&format!("component {} offset ({}, {}) in the default instance, source ({}, {})", i, oc.arg1, oc.arg2, x, y))));
+                            }
+                            if (oc.arg1 as f64 - rx).abs() > TOL || (oc.arg2 as f64 - ry).abs() > TOL {
+                                return Err(fail(
+                                    "component-offset",
+                                    ctx(&format!("component {} offset ({}, {}), reference ({:.4}, {:.4}); tuples {:?}", i, oc.arg1, oc.arg2, rx, ry, g.tuples)),
+                                ));
+                            }
+                        }
+                        CompArgs::Points(p, q) => {
+                            if oc.xy || oc.arg1 != p as i32 || oc.arg2 != q as i32 {
+                                return Err(fail(
+                                    "component-anchor-args",
+                                    ctx(&format!("component {} is attached by points ({}, {}); output has xy={} args ({}, {}); tuples {:?}", i, p, q, oc.xy, oc.arg1, oc.arg2, g.tuples)),
+                                ));
+                            }
+                        }
+                    }
+                    let keep = 0x0004u16; // ROUND_XY_TO_GRID
+                    let src_flags = if sc.round_to_grid { keep } else { 0 };
+                    if oc.flags & keep != src_flags {
+                        return Err(fail("component-flags", ctx(&format!("component {} ROUND_XY_TO_GRID changed", i))));
+                    }
+                }
+            }
+            (k, o) => {
+                return Err(fail("glyph-kind", ctx(&format!("source kind {:?}, output {}", k, match o { OutShape::Empty => "empty", OutShape::Simple { .. } => "simple", OutShape::Composite { .. } => "composite" }))));
+            }
+        }
+        evals.push(ev);
+    }
+    // composite header bboxes: the box of the composed output points
+    let mut bbox_defect_glyphs: Vec<usize> = Vec::new();
+    for (gi, g) in b.glyphs.iter().enumerate() {
+        if g.kind == Kind::Composite && composite_is_plain(&out.glyphs, gi, 0) {
+            let pts = composed_points(&out.glyphs, gi, 0).ok_or_else(|| fail("compose-output", format!("glyph {}: output composite cannot be composed", gi)))?;
+            if let Some(bb) = bbox_of(&pts) {
+                let og = &out.glyphs[gi];
+                let hb = (og.bbox.0 as f64, og.bbox.1 as f64, og.bbox.2 as f64, og.bbox.3 as f64);
+                if bb != hb {
+                    // defect model: point-number arguments taken for x/y offsets when the box of
+                    // an instanced composite is recomputed
+                    let dm = composed_points_model(&out.glyphs, gi, 0, true).and_then(|p| bbox_of(&p));
+                    let f = fail(
+                        if dm == Some(hb) { "bbox-composite-anchor-args-as-offsets" } else { "bbox-composite" },
+                        format!("glyph {} at {:?}: composite header bbox {:?} but its composed points span {:?}; components {:?}", gi, loc, og.bbox, bb, g.comps),
+                    );
+                    if dm == Some(hb) {
+                        agg.deferred.get_or_insert(f);
+                        bbox_defect_glyphs.push(gi);
+                    } else {
+                        return Err(f);
+                    }
+                }
+            }
+        }
+    }
+    // ---- metrics
+    let mut max_adv = 0u16;
+    for (gi, g) in b.glyphs.iter().enumerate() {
+        let ev = &evals[gi];
+        let (adv_o, lsb_o) = out.metrics[gi];
+        max_adv = max_adv.max(adv_o);
+        let og = &out.glyphs[gi];
+        let n = g.n_points;
+        let src_xmin = if g.kind == Kind::Empty { 0.0 } else { g.bbox.0 as f64 };
+        let pp1_ref = src_xmin - g.lsb as f64 + ev.deltas[n].0;
+        let pp2_ref = src_xmin - g.lsb as f64 + g.advance as f64 + ev.deltas[n + 1].0;
+        let adv_ref = pp2_ref - pp1_ref;
+        let xmin_o = if matches!(og.shape, OutShape::Empty) { 0.0 } else { og.bbox.0 as f64 };
+        let ctx = |what: &str| format!("glyph {} ({:?}) at {:?}: {}; source advance {} lsb {} xMin {}; tuples {:?}", gi, g.kind, loc, what, g.advance, g.lsb, src_xmin, g.tuples);
+        if at_default {
+            if adv_o == g.advance && bbox_defect_glyphs.contains(&gi) && lsb_o as f64 == xmin_o - (src_xmin - g.lsb as f64) {
+                // consequence of the attributed bbox defect: lsb = (wrong xMin) - pp1
+                continue;
+            }
+            if adv_o != g.advance || lsb_o != g.lsb {
+                return Err(fail("default-metrics", ctx(&format!("default instance has advance {} lsb {}", adv_o, lsb_o))));
+            }
+            continue;
+        }
+        let pp1_o = xmin_o - lsb_o as f64;
+        match &b.hvar {
+            None => {
+                if adv_ref >= 1.0 {
+                    if (adv_o as f64 - adv_ref).abs() > TOL {
+                        return Err(fail("advance-phantom", ctx(&format!("advance {} but phantom points give {:.4}", adv_o, adv_ref))));
+                    }
+                    if ((pp1_o + adv_o as f64) - pp2_ref).abs() > TOL {
+                        return Err(fail("phantom-pp2", ctx(&format!("xMin - lsb + advance = {} but phantom point 2 moves to {:.4}", pp1_o + adv_o as f64, pp2_ref))));
+                    }
+                } else {
+                    agg.skipped_negative_advance += 1;
+                }
+                let lsb_assertable = g.kind != Kind::Empty || ev.deltas[n].0 == 0.0;
+                if lsb_assertable && (pp1_o - pp1_ref).abs() > TOL {
+                    return Err(fail("lsb-phantom", ctx(&format!("lsb {} with output xMin {} puts phantom point 1 at {} but it moves to {:.4}", lsb_o, xmin_o, pp1_o, pp1_ref))));
+                }
+            }
+            Some(h) => {
+                let d = h.advance_delta(gi as u16, loc).ok_or_else(|| fail("hvar-row-missing", format!("glyph {}: HVAR has no delta set", gi)))?;
+                let href = g.advance as f64 + d;
+                // the generated HVAR agrees with the phantom point deltas by construction
+                if b.hvar_consistent {
+                    assert!((href - adv_ref).abs() < 1e-6, "HVAR/gvar advance disagree in the generated font: {} vs {}", href, adv_ref);
+                }
+                if href >= 1.0 && adv_ref >= 1.0 {
+                    // (a fixture whose HVAR and phantom deltas differ: either is acceptable)
+                    if (adv_o as f64 - href).abs() > TOL && (b.hvar_consistent || (adv_o as f64 - adv_ref).abs() > TOL) {
+                        return Err(fail("advance-hvar", ctx(&format!("advance {} but HVAR (and the phantom points) give {:.4}; HVAR advance map {:?}", adv_o, href, h.adv_map))));
+                    }
+                } else {
+                    agg.skipped_negative_advance += 1;
+                }
+                let lsb_assertable = g.kind != Kind::Empty || ev.deltas[n].0 == 0.0;
+                let phantom_ok = (pp1_o - pp1_ref).abs() <= TOL;
+                if b.hvar_lsb_mapped {
+                    // HVAR's lsb deltas and the outline-derived lsb are independent data in the
+                    // generated font; an implementation may follow either.
+                    let l = g.lsb as f64 + h.lsb_delta(gi as u16, loc).ok_or_else(|| fail("hvar-row-missing", format!("glyph {}: HVAR has no lsb delta set", gi)))?;
+                    let hvar_ok = (lsb_o as f64 - l).abs() <= TOL;
+                    if hvar_ok {
+                        agg.lsb_from_hvar += 1;
+                    }
+                    if !hvar_ok && !(lsb_assertable && phantom_ok) && lsb_assertable {
+                        return Err(fail("lsb-hvar", ctx(&format!("lsb {} is neither HVAR's {:.4} nor xMin - pp1 = {:.4}", lsb_o, l, xmin_o - pp1_ref))));
+                    }
+                } else if lsb_assertable && !phantom_ok {
+                    return Err(fail("lsb-phantom", ctx(&format!("(HVAR without lsb map) lsb {} with output xMin {} puts phantom point 1 at {} but it moves to {:.4}", lsb_o, xmin_o, pp1_o, pp1_ref))));
+                }
+            }
+        }
+        // the side bearing against the reference outline itself (simple glyphs)
+        if g.kind == Kind::Simple && !(b.hvar.is_some() && b.hvar_lsb_mapped) {
+            let xmin_ref = g.coords.iter().enumerate().map(|(i, c)| c.0 as f64 + ev.deltas[i].0).fold(f64::INFINITY, f64::min);
+            let lsb_ref = xmin_ref - pp1_ref;
+            if (lsb_o as f64 - lsb_ref).abs() > TOL {
+                return Err(fail("lsb", ctx(&format!("lsb {} but the reference outline's xMin {:.4} minus phantom point 1 {:.4} is {:.4}", lsb_o, xmin_ref, pp1_ref, lsb_ref))));
+            }
+        }
+    }
+    if out.advance_width_max != max_adv {
+        return Err(fail("advance-width-max", format!("hhea.advanceWidthMax {} but the largest advance is {}", out.advance_width_max, max_adv)));
+    }
+    // ---- MVAR
+    let out_fields = metric_fields(out_bytes).map_err(|e| fail("output-unreadable", e))?;
+    for (tag, sv) in src_fields {
+        let ov = out_fields.iter().find(|f| f.0 == *tag).map(|f| f.1).ok_or_else(|| fail("output-unreadable", "metric field missing".into()))?;
+        let adj = match &b.mvar {
+            Some((recs, ivs)) => recs.iter().find(|r| r.0 == *tag).and_then(|r| ivs.adjustment(r.1, r.2, loc)),
+            None => None,
+        };
+        match adj {
+            None => {
+                if ov != *sv {
+                    return Err(fail("metric-without-mvar-changed", format!("{:?} changed from {} to {} at {:?} without an MVAR record", String::from_utf8_lossy(tag), sv, ov, loc)));
+                }
+            }
+            Some(a) => {
+                let r = *sv as f64 + a;
+                let unsigned = tag == b"hcla" || tag == b"hcld";
+                if unsigned && r < 1.0 {
+                    continue;
+                }
+                if at_default && ov != *sv {
+                    return Err(fail("default-mvar", format!("{:?} is {} in the default instance, source {}", String::from_utf8_lossy(tag), ov, sv)));
+                }
+                if (ov as f64 - r).abs() > TOL {
+                    return Err(fail("mvar", format!("{:?} is {} at {:?}, reference {:.4} = {} + {:.4}; MVAR {:?}", String::from_utf8_lossy(tag), ov, loc, r, sv, a, b.mvar)));
+                }
+                agg.mvar_checked += 1;
+            }
+        }
+    }
+    // ---- cvt
+    if let Some((vals, tvs)) = &b.cvt {
+        let oc: Vec<i16> = find_table(out_bytes, b"cvt ")
+            .ok_or_else(|| fail("cvt-missing", "the source has a cvt table, the instance has none".into()))?
+            .chunks_exact(2)
+            .map(|b| i16::from_be_bytes([b[0], b[1]]))
+            .collect();
+        if oc.len() != vals.len() {
+            return Err(fail("cvt-length", format!("cvt has {} values, source {}", oc.len(), vals.len())));
+        }
+        let r = eval_cvt(vals, tvs, loc);
+        for i in 0..vals.len() {
+            if at_default && oc[i] != vals[i] {
+                return Err(fail("default-cvt", format!("cvt[{}] is {} in the default instance, source {}", i, oc[i], vals[i])));
+            }
+            if (oc[i] as f64 - r[i]).abs() > TOL {
+                return Err(fail("cvt", format!("cvt[{}] is {} at {:?}, reference {:.4} (source {}); cvar tuples {:?}", i, oc[i], loc, r[i], vals[i], tvs)));
+            }
+        }
+        agg.cvt_checked |= !tvs.is_empty();
+    }
+    // ---- loadable as a non-variable font
+    {
+        let fd = ReadScope::new(out_bytes).read::<FontData<'_>>().map_err(|e| fail("output-not-loadable", format!("{:?}", e)))?;
+        let prov = fd.table_provider(0).map_err(|e| fail("output-not-loadable", format!("{:?}", e)))?;
+        let font = Font::new(prov).map_err(|e| fail("output-not-loadable", format!("Font::new: {:?}", e)))?;
+        if font.is_variable() {
+            return Err(fail("output-is-variable", "Font::is_variable() is true for the instance".into()));
+        }
+    }
+    for ev in &evals {
+        agg.fractional |= ev.fractional_scalars > 0;
+        agg.inferred |= ev.any_inferred;
+        agg.on_edge |= ev.on_edge;
+        agg.multi_axis |= ev.multi_axis_product;
+        agg.applicable_max = agg.applicable_max.max(ev.applicable);
+    }
+    let _ = rec;
+    Ok(())
+}
+
+/// no transforms anywhere below this glyph (so that composing it is exact integer arithmetic)
+fn composite_is_plain(glyphs: &[crate::refmodel::varmodel::OutGlyph], gid: usize, depth: usize) -> bool {
+    if depth > 8 {
+        return false;
+    }
+    match glyphs.get(gid).map(|g| &g.shape) {
+        Some(OutShape::Composite { components, .. }) => components.iter().all(|c| c.transform.is_empty() && composite_is_plain(glyphs, c.glyph as usize, depth + 1)),
+        Some(_) => true,
+        None => false,
+    }
+}
+
+#[derive(Default)]
+struct Agg {
+    fractional: bool,
+    inferred: bool,
+    on_edge: bool,
+    multi_axis: bool,
+    applicable_max: usize,
+    skipped_negative_advance: u32,
+    lsb_from_hvar: u32,
+    mvar_checked: u32,
+    cvt_checked: bool,
+    /// a failure attributed to a known finding by its defect model: reported only if nothing
+    /// else fails in the case, so that the search continues behind the finding
+    deferred: Option<Fail>,
+}
+
+pub fn check_case(case: &Case, rec: &mut Rec) -> CaseResult {
+    let b = build(case);
+    let has_invalid = b.all_regions.iter().any(|r| r.iter().any(|a| axis_region_invalid(*a)));
+    match check_case_built(case, &b, rec) {
+        // a case whose variation data contains a region the specification calls invalid (and
+        // tells implementations to ignore, axis scalar 1) gets its own signature
+        Err(f) if has_invalid && f.sig != "C12:bbox-composite-anchor-args-as-offsets" => {
+            Err(Fail::new("C12:invalid-region-axis-not-ignored", format!("[font has invalid region axes: {:?}] {}: {}", b.all_regions.iter().filter(|r| r.iter().any(|a| axis_region_invalid(*a))).collect::<Vec<_>>(), f.sig, f.msg)))
+        }
+        r => {
+            if r.is_ok() {
+                rec.class_if(has_invalid, "invalid-region-axis");
+            }
+            r
+        }
+    }
+}
+
+fn check_case_built(case: &Case, b: &Built, rec: &mut Rec) -> CaseResult {
+    rec.artefact("font", &b.font);
+    let src = read_font(&b.font).expect("own font readable by own reader");
+    let src_fields = metric_fields(&b.font).expect("own font metric fields");
+    let fd = ReadScope::new(&b.font).read::<FontData<'_>>().map_err(|e| fail("source-not-loadable", format!("{:?}", e)))?;
+    let prov = fd.table_provider(0).map_err(|e| fail("source-not-loadable", format!("{:?}", e)))?;
+    let mut agg = Agg::default();
+    let mut users: Vec<Vec<i32>> = vec![b.axes.iter().map(|a| a.default).collect()];
+    for cs in &case.coords {
+        users.push(b.axes.iter().enumerate().map(|(i, a)| user_value(&cs[i], a, i, &b.all_regions)).collect());
+    }
+    let mut locs: Vec<Vec<i16>> = Vec::new();
+    for (ui, user) in users.iter().enumerate() {
+        let tuple: Vec<Fixed> = user.iter().map(|v| Fixed::from_raw(*v)).collect();
+        let (out, loc) = match allsorts::variations::instance(&prov, &tuple) {
+            Ok(r) => r,
+            Err(e) => {
+                return Err(fail("instance-err", format!("instance() failed on a well-formed generated font at user tuple {:?}: {:?}", user, e)));
+            }
+        };
+        let loc: Vec<i16> = loc.iter().map(|v| v.raw_value()).collect();
+        if loc.len() != b.axes.len() {
+            return Err(fail("tuple-len", format!("returned tuple has {} entries for {} axes", loc.len(), b.axes.len())));
+        }
+        if ui == 0 && loc.iter().any(|v| *v != 0) {
+            return Err(fail("default-not-zero", format!("default user coordinates normalise to {:?}", loc)));
+        }
+        check_instance(&b.model, &src, &src_fields, &out, &loc, rec, &mut agg)?;
+        locs.push(loc);
+    }
+    // ---- classification
+    rec.evaluations(users.len() as u64 - 1);
+    rec.set_nontrivial(agg.fractional && agg.inferred);
+    rec.class_if(agg.fractional, "scalar-fractional");
+    rec.class_if(agg.inferred, "inferred-delta");
+    rec.class_if(agg.on_edge, "coordinate-on-region-edge");
+    rec.class_if(agg.multi_axis, "multi-axis-product");
+    rec.class_if(agg.applicable_max >= 2, "overlapping-tuples>=2");
+    rec.class_if(agg.applicable_max >= 3, "overlapping-tuples>=3");
+    rec.class(&format!("axes:{}", b.axes.len()));
+    rec.class_if(case.with_avar, "avar");
+    let s = &b.stats;
+    rec.class_if(s.intermediate > 0, "intermediate-region");
+    rec.class_if(s.private_points > 0, "private-points");
+    rec.class_if(s.shared_points > 0, "shared-points");
+    rec.class_if(s.all_points > 0, "all-points");
+    rec.class_if(s.shared_peaks > 0, "shared-peak");
+    rec.class_if(s.embedded_peaks > 0, "embedded-peak");
+    rec.class_if(s.count_two_byte > 0, "point-count-2byte");
+    rec.class_if(s.count_two_byte_small > 0, "point-count-2byte-small");
+    rec.class_if(s.point_word_runs > 0, "point-word-run");
+    rec.class_if(s.point_run_128 > 0, "point-run-128");
+    rec.class_if(s.delta_zero_runs > 0, "delta-zero-run");
+    rec.class_if(s.delta_byte_runs > 0, "delta-byte-run");
+    rec.class_if(s.delta_word_runs > 0, "delta-word-run");
+    rec.class_if(s.delta_run_64 > 0, "delta-run-64");
+    rec.class_if(case.long_gvar, "gvar-long-offsets");
+    rec.class_if(!case.long_gvar, "gvar-short-offsets");
+    let phantom_deltas = b.model.glyphs.iter().any(|g| {
+        g.tuples.iter().any(|t| match &t.points {
+            None => t.deltas[g.n_points..].iter().any(|d| *d != (0, 0)),
+            Some(ps) => ps.iter().zip(t.deltas.iter()).any(|(p, d)| *p as usize >= g.n_points && *d != (0, 0)),
+        })
+    });
+    rec.class_if(phantom_deltas, "phantom-deltas");
+    rec.class_if(b.model.glyphs.iter().any(|g| g.kind == Kind::Composite && !g.tuples.is_empty()), "composite-with-deltas");
+    rec.class_if(b.model.glyphs.iter().any(|g| g.comps.iter().any(|c| matches!(c.args, CompArgs::Points(..)))), "composite-anchored");
+    rec.class_if(b.model.glyphs.iter().any(|g| g.kind == Kind::Empty && !g.tuples.is_empty()), "empty-glyph-with-deltas");
+    rec.class_if(b.model.glyphs.iter().any(|g| g.tuples.is_empty()), "glyph-without-variation-data");
+    rec.class_if(b.model.glyphs.iter().any(|g| g.big), "big-glyph");
+    rec.class_if(b.model.glyphs.iter().any(|g| g.kind != Kind::Empty && g.lsb != g.bbox.0), "lsb!=xMin");
+    match (&case.hvar, &b.model.hvar) {
+        (Some(h), Some(_)) => {
+            rec.class(if h.mapped { "HVAR-mapped" } else { "HVAR-direct" });
+            rec.class_if(h.lsb_map, "HVAR-lsb-map");
+            rec.class_if(h.long_words, "HVAR-long-words");
+            if h.mapped {
+                rec.class(&format!("HVAR-entry-size>={}", h.entry_size));
+            }
+        }
+        _ => rec.class("HVAR-absent"),
+    }
+    rec.class_if(agg.lsb_from_hvar > 0, "lsb-follows-HVAR");
+    rec.class_if(b.model.mvar.is_some(), "MVAR");
+    rec.class_if(agg.mvar_checked > 0, "MVAR-field-checked");
+    rec.class_if(agg.cvt_checked, "cvar");
+    rec.class_if(agg.skipped_negative_advance > 0, "skipped:advance<1");
+    rec.class_if(case.short_hmtx, "hmtx-short-tail");
+    rec.hash_bytes(&b.font);
+    rec.sample(|| {
+        format!(
+            "{} axes, {} glyphs [{}], hvar {:?}, mvar {}, locations {:?}",
+            b.axes.len(),
+            b.model.glyphs.len(),
+            b.model.glyphs.iter().map(|g| format!("{:?}:{}pt/{}tv", g.kind, g.n_points, g.tuples.len())).collect::<Vec<_>>().join(" "),
+            case.hvar.as_ref().map(|h| (h.mapped, h.lsb_map)),
+            b.model.mvar.is_some(),
+            locs
+        )
+    });
+    let _ = region_is_implied;
+    let _ = find_table;
+    if let Some(f) = agg.deferred.take() {
+        return Err(f);
+    }
+    Ok(())
+}
+
+// ------------------------------------------------------------------ fixture variable fonts
+
+const FIXTURES: [&str; 4] = [
+    "fonts/opentype/NotoSans-VF.abc.ttf",
+    "fonts/variable/Inter[slnt,wght].abc.ttf",
+    "fonts/variable/UnderlineTest-VF.ttf",
+    "fonts/variable/Zycon.ttf",
+];
+const FIXTURE_COORDS: u64 = 48;
+
+fn be16(d: &[u8], at: usize) -> Option<u16> {
+    d.get(at..at + 2).map(|b| u16::from_be_bytes([b[0], b[1]]))
+}
+fn be32(d: &[u8], at: usize) -> Option<i32> {
+    d.get(at..at + 4).map(|b| i32::from_be_bytes([b[0], b[1], b[2], b[3]]))
+}
+
+/// (tag, min, default, max) per axis, read from fvar per the specification
+fn read_fvar_axes(fvar: &[u8]) -> Option<Vec<AxisModel>> {
+    let off = be16(fvar, 4)? as usize;
+    let count = be16(fvar, 8)? as usize;
+    let size = be16(fvar, 10)? as usize;
+    let mut v = Vec::new();
+    for i in 0..count {
+        let at = off + i * size;
+        v.push(AxisModel {
+            tag: fvar.get(at..at + 4)?.try_into().ok()?,
+            min: be32(fvar, at + 4)?,
+            default: be32(fvar, at + 8)?,
+            max: be32(fvar, at + 12)?,
+            flags: 0,
+            name_id: 0,
+        });
+    }
+    Some(v)
+}
+
+/// Decode a fixture into the same model the generated fonts are checked against.
+fn fixture_model(bytes: &[u8]) -> Result<(Model, ParsedFont, Vec<AxisModel>, Vec<Region>), String> {
+    let src = read_font(bytes)?;
+    let axes = read_fvar_axes(find_table(bytes, b"fvar").ok_or("no fvar")?).ok_or("fvar unreadable")?;
+    let np: Vec<usize> = src
+        .glyphs
+        .iter()
+        .map(|g| match &g.shape {
+            OutShape::Empty => 0,
+            OutShape::Simple { points, .. } => points.len(),
+            OutShape::Composite { components, .. } => components.len(),
+        })
+        .collect();
+    let mut tuples = decode_gvar(find_table(bytes, b"gvar").ok_or("no gvar")?, &np)?;
+    tuples.resize(src.glyphs.len(), Vec::new());
+    let mut regions: Vec<Region> = Vec::new();
+    let mut glyphs = Vec::new();
+    for (gi, g) in src.glyphs.iter().enumerate() {
+        for t in &tuples[gi] {
+            if !regions.contains(&t.region) {
+                regions.push(t.region.clone());
+            }
+        }
+        let mut m = GlyphModel {
+            kind: Kind::Empty,
+            coords: Vec::new(),
+            on: Vec::new(),
+            ends: Vec::new(),
+            comps: Vec::new(),
+            transforms: Vec::new(),
+            n_points: np[gi],
+            tuples: tuples[gi].clone(),
+            enc: GlyphVarEnc::default(),
+            advance: src.metrics[gi].0,
+            lsb: src.metrics[gi].1,
+            bbox: g.bbox,
+            record: Vec::new(),
+            big: false,
+        };
+        match &g.shape {
+            OutShape::Empty => {}
+            OutShape::Simple { ends, points, .. } => {
+                m.kind = Kind::Simple;
+                m.coords = points.iter().map(|p| (p.0, p.1)).collect();
+                m.on = points.iter().map(|p| p.2).collect();
+                m.ends = ends.iter().map(|e| *e as usize).collect();
+            }
+            OutShape::Composite { components, .. } => {
+                m.kind = Kind::Composite;
+                for c in components {
+                    m.comps.push(ComponentEnc {
+                        glyph: c.glyph,
+                        args: if c.xy { CompArgs::Offset(c.arg1 as i16, c.arg2 as i16) } else { CompArgs::Points(c.arg1 as u16, c.arg2 as u16) },
+                        force_words: false,
+                        round_to_grid: c.flags & 0x0004 != 0,
+                    });
+                    m.transforms.push(c.transform.clone());
+                }
+            }
+        }
+        glyphs.push(m);
+    }
+    let hvar = match find_table(bytes, b"HVAR") {
+        Some(d) => Some(decode_hvar(d)?),
+        None => None,
+    };
+    let mvar = match find_table(bytes, b"MVAR") {
+        Some(d) => {
+            let (recs, ivs) = decode_mvar(d)?;
+            ivs.map(|i| (recs, i))
+        }
+        None => None,
+    };
+    if let Some((_, ivs)) = &mvar {
+        for r in &ivs.regions {
+            if !regions.contains(r) {
+                regions.push(r.clone());
+            }
+        }
+    }
+    let hvar_lsb_mapped = hvar.as_ref().map(|h| h.lsb_map.is_some()).unwrap_or(false);
+    let cvt = match (find_table(bytes, b"cvt "), find_table(bytes, b"cvar")) {
+        (Some(c), Some(v)) => {
+            let vals: Vec<i16> = c.chunks_exact(2).map(|b| i16::from_be_bytes([b[0], b[1]])).collect();
+            let tv = decode_cvar(v, axes.len(), vals.len())?;
+            Some((vals, tv))
+        }
+        (Some(c), None) => Some((c.chunks_exact(2).map(|b| i16::from_be_bytes([b[0], b[1]])).collect(), Vec::new())),
+        _ => None,
+    };
+    Ok((Model { glyphs, hvar, hvar_consistent: false, hvar_lsb_mapped, mvar, cvt }, src, axes, regions))
+}
+
+fn check_fixture(item: u64, rec: &mut Rec) -> CaseResult {
+    let name = FIXTURES[(item % FIXTURES.len() as u64) as usize];
+    let k = item / FIXTURES.len() as u64;
+    let bytes = match fixtures::read(name) {
+        Some(b) => b,
+        None => {
+            rec.class("fixture-missing");
+            return Ok(());
+        }
+    };
+    let (model, src, axes, regions) = fixture_model(&bytes).map_err(|e| Fail::new("C12:fixture-decode", format!("{}: my decoders cannot read the fixture: {}", name, e)))?;
+    let src_fields = metric_fields(&bytes).map_err(|e| Fail::new("C12:fixture-decode", format!("{}: {}", name, e)))?;
+    let fd = ReadScope::new(&bytes).read::<FontData<'_>>().map_err(|e| fail("source-not-loadable", format!("{:?}", e)))?;
+    let prov = fd.table_provider(0).map_err(|e| fail("source-not-loadable", format!("{:?}", e)))?;
+    let user: Vec<i32> = axes
+        .iter()
+        .enumerate()
+        .map(|(i, a)| {
+            if k == 0 {
+                a.default
+            } else {
+                let h = mix64(item.wrapping_mul(0x9e37) ^ ((i as u64) << 40));
+                let kind = [0u8, 1, 2, 3, 3, 3, 4, 5, 5, 5, 6, 7][(h % 12) as usize];
+                user_value(&CoordSpec { kind, r: (h >> 16) as u32, off: if h & 0x100 != 0 { 1 } else { -1 } }, a, i, &regions)
+            }
+        })
+        .collect();
+    let tuple: Vec<Fixed> = user.iter().map(|v| Fixed::from_raw(*v)).collect();
+    let (out, loc) = allsorts::variations::instance(&prov, &tuple).map_err(|e| fail("instance-err", format!("{}: instance() failed at user tuple {:?}: {:?}", name, user, e)))?;
+    let loc: Vec<i16> = loc.iter().map(|v| v.raw_value()).collect();
+    let mut agg = Agg::default();
+    check_instance(&model, &src, &src_fields, &out, &loc, rec, &mut agg).map_err(|f| Fail::new(f.sig, format!("{} (user {:?}): {}", name, user, f.msg)))?;
+    rec.set_nontrivial(agg.fractional && agg.inferred);
+    rec.class(&format!("fixture:{}", name.rsplit('/').next().unwrap_or(name)));
+    rec.class_if(agg.fractional, "fixture:scalar-fractional");
+    rec.class_if(agg.inferred, "fixture:inferred-delta");
+    rec.class_if(agg.on_edge, "fixture:coordinate-on-region-edge");
+    rec.class_if(agg.applicable_max >= 3, "fixture:overlapping-tuples>=3");
+    rec.class_if(agg.mvar_checked > 0, "fixture:MVAR-field-checked");
+    rec.class_if(model.hvar.is_some(), "fixture:HVAR");
+    rec.class_if(agg.cvt_checked, "fixture:cvar");
+    rec.hash_u64(item);
+    rec.sample(|| format!("{} at {:?} -> {:?}", name, user, loc));
+    if let Some(f) = agg.deferred.take() {
+        return Err(f);
+    }
+    Ok(())
+}
 
 impl Property for C12 {
     fn id(&self) -> &'static str {
         "C12"
     }
     fn rule(&self) -> String {
-        "not implemented".to_string()
+        "proptest generates a variation model (1-3 axes with optional avar; 1-5 glyphs: simple with coincident coordinates, big 70-300 point, composite with xy offsets / anchor points, empty; 0-4 tuple variations per glyph with implied or intermediate regions, all / private / shared point sets incl. phantom points, byte and word deltas; hmtx; optional HVAR built to agree with the phantom deltas, direct or via DeltaSetIndexMaps of 1-4 byte entries; optional MVAR); \
+         my own gvar/HVAR/MVAR/fvar/avar/glyf encoders serialise it with free encoding choices (point/delta run splits and widths, count width, shared/embedded peaks, shared point numbers, short/long offsets, padding); \
+         variations::instance is called at the default and five further user tuples (region start/peak/end pre-images ±raw units, min, max, inside, outside); the output is read by independent glyf/hmtx/OS2/hhea/post readers and compared with an f64 evaluation of the model (region scalars, explicit deltas, IUP per contour) at the returned normalised tuple, tolerance 1 unit (+1/16 for 16-fractional-bit arithmetic); exact equality at the default location; no *var tables; Font::is_variable() false. \
+         Non-trivial = some tuple had a scalar strictly between 0 and 1 and some point received an inferred delta; distinct by hash of the generated font."
+            .to_string()
     }
-    fn run(&self, _ctx: &mut Ctx) {}
+    fn assumptions(&self) -> Vec<String> {
+        vec![
+            "the normalised tuple returned by instance() is taken as the location (normalisation is C13)".into(),
+            "un-referenced components of composite glyphs and un-referenced phantom points receive a zero delta (no contour to interpolate along), as in FreeType/fontTools".into(),
+            "regions are generated valid (start ≤ peak ≤ end on one side of zero, some axis with a non-zero peak); packed delta runs do not span the x/y boundary".into(),
+            "HVAR advance deltas are generated equal to the gvar phantom point deltas, so either source of the advance is acceptable; with an HVAR lsb map either HVAR's lsb or xMin − pp1 is accepted".into(),
+            "lsb of an instanced glyph is compared through phantom point 1 (xMin_out − lsb_out vs. pp1 + Σ scalar·delta) and, for simple glyphs, against the reference outline's xMin".into(),
+            "advances whose reference value is < 1 are not asserted (allsorts clamps at 0)".into(),
+        ]
+    }
+    fn run(&self, ctx: &mut Ctx) {
+        let n = ctx.cases(40_000, 800_000);
+        ctx.section("model", n, case_strategy(), |c, rec| check_case(c, rec));
+        // the repository's TrueType variable fonts, decoded by my own gvar/HVAR/MVAR decoders
+        let per_font = ctx.cases(FIXTURE_COORDS, 2_000);
+        ctx.enumerate("fixtures", FIXTURES.len() as u64 * per_font, false, |i, rec| check_fixture(i, rec));
+    }
 }
